@@ -84,6 +84,7 @@ mut('C11', 'merge-set-order', 'rsatoolbox/data/ops.py', "    meas = concatenate(
 mut('C11', 'time_as_channels-order', D, "        chn_des = {k: np.repeat(v, n_tps, axis=0)\n                   for (k, v) in old_chn_des.items()}", "        chn_des = {k: np.concatenate([v] * n_tps, axis=0)\n                   for (k, v) in old_chn_des.items()}")
 mut('C11', 'sort-unstable', D, "        desc = self.obs_descriptors[by]\n        order = np.argsort(desc, kind='stable')\n        self.measurements = self.measurements[order]\n        self.obs_descriptors = subset_descriptor(self.obs_descriptors, order)\n\n    def get_measurements(self):",
     "        desc = self.obs_descriptors[by]\n        order = np.argsort(desc, kind='quicksort')\n        self.measurements = self.measurements[order]\n        self.obs_descriptors = subset_descriptor(self.obs_descriptors, order)\n\n    def get_measurements(self):")
+mut('C04', 'pool-remembered-per-object', 'rsatoolbox/util/inference_util.py', "    rdm_vec = rdms.get_vectors()\n    if method == 'euclid':", "    _key = (id(rdms), method, rdms.n_rdm, rdms.n_cond)\n    if _key in _POOLED:\n        return _POOLED[_key]\n    rdm_vec = rdms.get_vectors()\n    if method == 'euclid':")
 # ---- C12
 mut('C12', 'crossnobis-no-deepcopy', 'rsatoolbox/rdm/calc.py', "def calc_rdm_crossnobis(dataset, descriptor, noise=None,", "def calc_rdm_crossnobis(dataset, descriptor, noise=None,")
 mut('C12', 'transform-writes-through', 'rsatoolbox/rdm/transform.py', "    dissimilarities = rdms.get_vectors().copy()\n    dissimilarities[dissimilarities < 0] = 0\n    dissimilarities = np.sqrt(dissimilarities)", "    dissimilarities = rdms.get_vectors()\n    np.sqrt(np.clip(dissimilarities, 0, None), out=dissimilarities)")
@@ -108,6 +109,17 @@ def apply_extra(m, src):
     if m['name'] == 'file-kept-open':
         p = os.path.join(src, 'rsatoolbox/io/pkl.py')
         s = open(p).read().replace("import pickle\n", "import pickle\n_OPEN = []\n", 1)
+        open(p, 'w').write(s)
+    if m['name'] == 'pool-remembered-per-object':
+        # (the second half: remember what was pooled, per data object and method)
+        p = os.path.join(src, 'rsatoolbox/util/inference_util.py')
+        s = open(p).read()
+        s = s.replace("def pool_rdm(rdms, method: str = 'cosine'):", "_POOLED = {}\n\n\ndef pool_rdm(rdms, method: str = 'cosine'):", 1)
+        old = ("    return RDMs(rdm_vec,\n                dissimilarity_measure=rdms.dissimilarity_measure,\n"
+               "                descriptors=deepcopy(rdms.descriptors),\n                rdm_descriptors=None,\n"
+               "                pattern_descriptors=deepcopy(rdms.pattern_descriptors))")
+        assert s.count(old) == 1
+        s = s.replace(old, old.replace('    return RDMs(', '    _out = RDMs(') + "\n    _POOLED[_key] = _out\n    return _out")
         open(p, 'w').write(s)
     if m['name'] == 'crossnobis-no-deepcopy':
         p = os.path.join(src, 'rsatoolbox/rdm/calc.py')
